@@ -108,6 +108,16 @@ def make_worlds(numpy, regions, quick, rng):
     boxes6 = {q: (o[0], o[1], o[0] + 0.5, o[1] + 0.5) for q, o in enumerate(org6)}
     worlds.append(World('lattice3x2/bound-after-construction 4.125:4.75 step 1/8', r6, boxes6, [(-0.3, 10.2), (0.7, 11.5)], mags_d, True,
                         cells={1: 1, 2: 5}, bins={1: 2, 2: 5}))
+    # W7: a lattice whose origins have one more decimal than its spacing (x.x5 at 0.1 deg), built - with its magnitude grid -
+    # while the embedding program has a coarse decimal context and terse numpy print options set
+    from vh.core import other_surroundings
+    org7 = [(float(Fraction('-124.65') + i * Fraction('0.1')), float(Fraction('35.25') + j * Fraction('0.1'))) for j in range(2) for i in range(3)]
+    with other_surroundings():
+        mags_e = regions.magnitude_bins(4.05, 5.05, 0.25)
+        r7 = CartesianGrid2D.from_origins(numpy.array(org7), dh=0.1, magnitudes=mags_e)
+    boxes7 = {q: (o[0], o[1], o[0] + 0.1, o[1] + 0.1) for q, o in enumerate(org7)}
+    worlds.append(World('lattice3x2-halfstep/built in other surroundings 4.05:5.05 step 0.25', r7, boxes7, [(-124.7, 35.3), (-124.5, 35.5)],
+                        [4.05, 4.3, 4.55, 4.8, 5.05], True, cells={1: 2, 2: 3}, bins={1: 1, 2: 4}))
     return worlds
 
 
